@@ -53,6 +53,13 @@ def cases(tier, seed):
     for d1, d2, d3 in itertools.product(pool3, repeat=3):
         for replace in (False, True):
             yield {"kind": "merge", "recs": [mk("m/one", d1, 0, "s0"), mk("m/two", d2, 1, "s1"), mk("m/three", d3, 2, "s2")], "replace": replace, "name": None}
+    # longer chains (4 .. 9 inputs) with recurring field names: precedence is first-wins / last-wins whatever the number of inputs
+    for nrec in (4, 5, 6, 9) + ((17, 33) if thorough else ()):
+        for off in range(len(pool3)):
+            for step in (1, 2, 3):
+                for replace in (False, True):
+                    yield {"kind": "merge", "recs": [mk("m/r%d" % i, pool3[(off + i * step) % len(pool3)] + [["varint", "only%d" % i]], i, "s%d" % i) for i in range(nrec)],
+                           "replace": replace, "name": None if step != 2 else "x/renamed"}
     # the same descriptor more than once among the inputs (an updated copy of a record merged over the old one)
     for d1 in pool2[:10]:
         for d2 in pool2[:6]:
@@ -305,6 +312,16 @@ def run_group(case):
             if got != want:
                 viol.append(("C15:group:asdict-fields-exclude:%s" % ("fields+exclude" if fl and ex else "fields" if fl else "exclude"), case,
                              {"fields": fl, "exclude": ex, "got": got, "want": want}))
+        # the group is a VIEW on its members: after a field was read through the group, a value assigned to the member itself is what
+        # the group shows next (attribute, _asdict) - and what it serialises
+        direct = {"string": "member-assigned", "varint": 777, "datetime": lit.ev("dt(2022,2,2,tz=UTC)")}
+        for t, n in order:
+            getattr(g, n), g._asdict()
+            setattr(owner[n], n, direct[t])
+            want_v = obs(getattr(owner[n], n))
+            if obs(getattr(g, n)) != want_v or obs(g._asdict()[n]) != want_v or obs(getattr(g, n)) != want_v:
+                viol.append(("C15:group:stale-after-member-assignment", case, {"field": n, "group_shows": repr(getattr(g, n))[:60], "member_holds": repr(getattr(owner[n], n))[:60]}))
+                break
         for m in members:
             r = g.get_record_by_type(m._desc.name)
             first = next(x for x in members if x._desc.name == m._desc.name)
